@@ -22,7 +22,6 @@ import sys
 
 LINE = re.compile(r"^(\d+)\s+(.*)$")
 CALL = re.compile(r"^([a-z0-9_]+)\((.*)\)\s+= (-?\d+|\?)(?:\s+(E[A-Z]+).*)?$", re.S)
-FORK = re.compile(r"^(clone3?|fork|vfork)\(")
 SMALL = 512
 
 
@@ -115,10 +114,6 @@ def read_calls(path):
                     pending[pid] = None
                 else:
                     pending[pid] = head
-                    if FORK.match(head) and "CLONE_THREAD" not in head:
-                        # the child of a fork may be logged before the parent's
-                        # return value is: announce it at entry
-                        yield ln, pid, "@fork-entry", [], 0, None
                 continue
             r = re.match(r"^<\.\.\. ([a-z0-9_]+) resumed>\s*(.*)$", rest, re.S)
             if r:
@@ -144,6 +139,37 @@ class Seg:
         self.tids = set()      # threads that contributed an operation
 
 
+def forked_children(trace):
+    """Thread ids in the log that are processes of their own."""
+    foreign, entry, first = set(), {}, True
+    pat = re.compile(r"^(\d+)\s+(?:(clone3?|fork|vfork|execve)\((.*)|<\.\.\. (clone3?|fork|vfork|execve) resumed>(.*))$", re.S)
+    with open(trace, errors="replace") as f:
+        for line in f:
+            if "clone" not in line and "fork" not in line and "execve" not in line:
+                first = False
+                continue
+            m = pat.match(line.rstrip("\n"))
+            if not m:
+                first = False
+                continue
+            pid = int(m.group(1))
+            name = m.group(2) or m.group(4)
+            text = m.group(3) if m.group(2) else entry.pop(pid, "") + (m.group(5) or "")
+            if text.endswith("<unfinished ...>"):
+                entry[pid] = text[:-len("<unfinished ...>")]
+                first = False
+                continue
+            r = re.search(r"\)\s+= (-?\d+)", text)
+            ret = int(r.group(1)) if r else -1
+            if name == "execve":
+                if ret == 0 and not first:
+                    foreign.add(pid)
+            elif ret > 0 and "CLONE_THREAD" not in text:
+                foreign.add(ret)
+            first = False
+    return foreign
+
+
 def parse(trace, root):
     fdt = {}                   # fd -> (path, tracked)
     segs, cur = {}, None
@@ -167,32 +193,17 @@ def parse(trace, root):
         return os.path.normpath(os.path.join(base[0], p)) if base else None
 
     # Threads share one descriptor table: every thread id is attributed to the
-    # traced test process unless it is known to be a forked child (a process
-    # of its own, with a copy of the table): those are set aside, and a forked
-    # child that touches the traced root makes the case fail as unsupported.
-    foreign, known, forks_open = set(), set(), 0
+    # traced test process unless it is a forked child (a process of its own,
+    # with a copy of the table).  Forked children are found by a first pass
+    # over the log (the return value of a clone/fork/vfork without
+    # CLONE_THREAD, or a thread id that calls execve after the first line): a
+    # child's first calls may be logged before the parent's return value is.
+    # They are set aside; one that touches the traced root makes the case
+    # fail as unsupported.
+    foreign = forked_children(trace)
     for ln, pid, name, a, ret, errno in read_calls(trace):
         ok = ret is not None and ret >= 0
-        if name == "@fork-entry":
-            forks_open += 1
-            known.add(pid)
-            continue
-        if pid not in known:
-            known.add(pid)
-            if forks_open > 0:
-                foreign.add(pid)
-        if name in ("clone", "clone3", "fork", "vfork"):
-            if "CLONE_THREAD" not in " ".join(a):
-                forks_open = max(0, forks_open - 1)
-                if ok and ret > 0:
-                    foreign.add(ret)
-                    known.add(ret)
-            elif ok and ret > 0:
-                known.add(ret)
-            continue
-        if name == "execve":
-            if ok and pid in known and len(known) > 1:
-                foreign.add(pid)
+        if name in ("@fork-entry", "clone", "clone3", "fork", "vfork", "execve"):
             continue
         if pid in foreign:
             strs = [cstr(x)[0] for x in a if x.startswith('"')]
